@@ -292,10 +292,12 @@ func cmdCheck(args []string) int {
 			}
 			results = append(results, r)
 			if r.Err != "" {
-				if fc.Synth || (*prop == guardProp && !hasProp(fc.Props, guardProp)) {
+				if fc.Synth {
 					notes["lock discipline: "+r.Name+" is outside the verifier's subset, its accesses are NOT checked ("+r.Err+")"] = true
 					continue
 				}
+				// a function with a contract of its own (for whatever property) is inside the subset on the unchanged tree:
+				// if its obligations can no longer be generated, its lock discipline is no longer established either
 				genErrs = append(genErrs, genErr{r.Name, r.Err})
 				continue
 			}
